@@ -896,11 +896,10 @@ theorem ext_onSupervise_core {s : Sys} (self fc : Cid) (targets allT : List Cid)
       else if decision = 4 then
         tellAll (tellAll s2 false (some self) targets (.onKill true)) true (some self) allT .cmdResume
       else if decision = 5 then tellAll s2 true (some self) allT .cmdResume
-      else if decision = 6 then
+      else
         let s3 := upd s2 self (fun x => { x with paused := true })
         let t : Target := match (s.ctx self).parent with | some p => .own p | none => .nobody
-        tell s3 true (some self) t (.supervise ((self, []) :: chain') [])
-      else s2) := by
+        tell s3 true (some self) t (.supervise ((self, []) :: chain') [])) := by
   simp only
   have h1 := h0.trans (ext_say s!"decide:{self}:{fc}:{decision}" h0.valid)
   have hsend : ∀ (x : Sys), s.n ≤ x.n → ∀ d, some self = some d → d < x.n :=
@@ -920,20 +919,18 @@ theorem ext_onSupervise_core {s : Sys} (self fc : Cid) (targets allT : List Cid)
           exact h3.trans (ext_tellAll allT true (some self) .cmdResume h3.valid (lift _ _ h3.n_le hall) (hsend _ h3.n_le) trivial rfl)
         · split
           · exact h2.trans (ext_tellAll allT true (some self) .cmdResume h2.valid (lift _ _ h2.n_le hall) (hsend _ h2.n_le) trivial rfl)
-          · split
-            · have h3 := h2.trans (ext_upd_same self (fun x => { x with paused := true }) h2.valid (fun _ => rfl))
-              refine h3.trans (ext_tell true (some self) _ (.supervise ((self, []) :: chain') []) h3.valid ?_ (hsend _ h3.n_le) ?_ rfl)
-              · have := parentTarget_ok self hv
-                revert this
-                split
-                · intro hp; exact Nat.lt_of_lt_of_le hp h3.n_le
-                · intro _; trivial
-              · intro p hp
-                simp only [List.mem_cons] at hp
-                rcases hp with hp | hp
-                · rw [hp]; exact ⟨Nat.lt_of_lt_of_le hself h3.n_le, fun t ht => by cases ht⟩
-                · exact chainOK_mono hch' h3.n_le p hp
-            · exact h2
+          · have h3 := h2.trans (ext_upd_same self (fun x => { x with paused := true }) h2.valid (fun _ => rfl))
+            refine h3.trans (ext_tell true (some self) _ (.supervise ((self, []) :: chain') []) h3.valid ?_ (hsend _ h3.n_le) ?_ rfl)
+            · have := parentTarget_ok self hv
+              revert this
+              split
+              · intro hp; exact Nat.lt_of_lt_of_le hp h3.n_le
+              · intro _; trivial
+            · intro p hp
+              simp only [List.mem_cons] at hp
+              rcases hp with hp | hp
+              · rw [hp]; exact ⟨Nat.lt_of_lt_of_le hself h3.n_le, fun t ht => by cases ht⟩
+              · exact chainOK_mono hch' h3.n_le p hp
 
 theorem ext_onSuperviseDecide {s : Sys} (self : Cid) (chain : List (Cid × List Cid)) (hv : Valid s) (hself : self < s.n)
     (hch : chainOK s.n chain) : Ext s (onSuperviseDecide s self chain) := by
